@@ -16,7 +16,7 @@ def genExporters : G (List Exporter) := do
   for i in [0:nips] do
     let ip ← match (← below 4) with
       -- link-local exporters: the same address reached through different interfaces (zones) is a different exporter
-      | 3 => pure ([0xfe, 0x80] ++ List.replicate 13 0 ++ [1] ++ (if i % 2 = 0 then "eth0" else "eth1").toUTF8.toList)
+      | 3 => pure ([0xfe, 0x80] ++ List.replicate 13 0 ++ [UInt8.ofNat (i / 2 + 1)] ++ (if i % 2 = 0 then "eth0" else "eth1").toUTF8.toList)
       | 0 => pure [10, 0, 0, UInt8.ofNat (i + 1)]
       | 1 => pure ([0x20, 0x01, 0x0d, 0xb8] ++ List.replicate 11 0 ++ [UInt8.ofNat (i + 1)])
       | _ => pure (List.replicate 10 0 ++ [0xff, 0xff, 192, 0, 2, UInt8.ofNat (i + 1)])   -- IPv4-mapped
